@@ -175,7 +175,7 @@ def run(ctx):
     ctx.leg = "mc"
     states = trans = 0
     cov["mc"] = {}
-    mcs = [("life-4ops", dict(maxops=4, addset="1, 2, 3, 4, 5, 6, 7, 9", two=False)),
+    mcs = [("life-4ops", dict(maxops=4, addset="1, 2, 3, 5, 6, 7, 9", txadd="1", two=False)),
            ("life-3ops-2msg", dict(maxops=3, two=True)),
            ("sem-3leaves", dict(mode="sem", maxops=2, seml=3, semt=True))] if q else \
           [("life-5ops", dict(maxops=5, addset="1, 2, 3, 6, 7, 9", txadd="1", two=False)),
@@ -211,7 +211,7 @@ def run(ctx):
 
     # 2. spec -> impl: one behaviour per distinct (state, last operation), replayed on the real code
     ctx.leg = "replay"
-    gens = [("life", "probe", dict(maxops=3, two=True)),
+    gens = [("life", "probe", dict(maxops=3, addset="1, 2, 3, 6, 7, 9, 10", two=True)),
             ("sem", "probe", dict(mode="sem", maxops=2, seml=3, semt=False)),
             ("sem2", "probe", dict(mode="sem", maxops=2, seml=2, semt=True)),
             ("sem-spy", "spy", dict(mode="sem", maxops=2, seml=3, semt=False))] if q else \
@@ -315,14 +315,15 @@ def run(ctx):
         for bad in ("add:refused:OTHER", "tx:stale-sequence:ACCEPTED"):
             if ks.get(bad):
                 log("note: recorder saw %d x %s" % (ks[bad], bad))
-        for need in NEED:
-            if ks.get(need, 0) == 0:
-                raise Infra("recorder produced no %s events: driver is not exercising the property" % need)
         # 3a. everything except the timing of ConfirmExecution calls after a failed execution
         gen_, dist_, nlines = vlib.validate_trace(PROP, "TraceSmartAccount.tla", "TraceSmartAccountKnown.cfg", trace,
                                                   parallel=par, timeout=3000)
         log("validated %d recorded events of %d histories against TraceSmartAccount: %d transactions (%d accepted), %d adds, "
             "%d removes" % (nlines, nh, ks.get("tx", 0), ks.get("tx:ok", 0), ks.get("add", 0), ks.get("rm", 0)))
+        # non-vacuity (after the validation, so that a deviation that also starves an event kind is reported as what it is)
+        for need in NEED:
+            if ks.get(need, 0) == 0:
+                raise Infra("recorder produced no %s events: driver is not exercising the property" % need)
         # 3b. the properties as stated.  After 3a the only ways for this to fail are P9's "only after successful
         # execution" and P11's "a charged fee consumes the payer's sequence number": each is then checked alone.
         def strict(cfgname, names):
